@@ -28,6 +28,13 @@ PROGRAMS = {
         [(1, [(1, "def"), (5, "h"), (6, "("), (7, ")"), (8, ":"), (10, "y")]), (2, [(1, "z")])], [(0, 4)]),
     "header at the very end of the token list": (
         [(1, [(1, "x")]), (2, [(1, "def"), (5, "f"), (6, "("), (7, ")")])], [(1, 5)]),
+    "the last function of the file holds a nested function followed by two more lines of its own": (
+        [(1, [(1, "x")]), (2, [(1, "def"), (5, "f"), (6, "("), (7, ")"), (8, ":")]), (3, [(5, "a")]),
+         (4, [(5, "def"), (9, "g"), (10, "("), (11, ")"), (12, ":")]), (5, [(9, "b")]), (6, [(5, "c")]), (7, [(5, "d")])], [(1, 5), (7, 11)]),
+    "two nested siblings and a statement, at the end of the file": (
+        [(1, [(1, "def"), (5, "f"), (6, "("), (7, ")"), (8, ":")]),
+         (2, [(5, "def"), (9, "g"), (10, "("), (11, ")"), (12, ":")]), (3, [(9, "b")]),
+         (4, [(5, "def"), (9, "h"), (10, "("), (11, ")"), (12, ":")]), (5, [(9, "c")]), (6, [(5, "d")])], [(0, 4), (5, 9), (11, 15)]),
     "method inside an indented class body, followed by a sibling method": (
         [(1, [(1, "class"), (7, "A"), (8, ":")]), (2, [(5, "def"), (9, "m"), (10, "("), (11, ")"), (12, ":")]), (3, [(9, "a")]), (4, [(9, "b")]),
          (5, [(5, "def"), (9, "n"), (10, "("), (11, ")"), (12, ":")]), (6, [(9, "c")]), (7, [(1, "d")])], [(3, 7), (10, 14)]),
